@@ -449,7 +449,9 @@ def eval_strategy(max_len):
         n = len(labs)
         kind = desc['k']
         names = draw(st.sampled_from([['X', 'Y'], ['X', 'Y', 'Z'], ['X', 'lag'], ['exp', 'Y'], ['X'],
-                                      ['\u03b1', 'Y'], ['X', '\u0394Y', 'Y\u00e9'], ['x_1', '_u']]))
+                                      ['\u03b1', 'Y'], ['X', '\u0394Y', 'Y\u00e9'], ['x_1', '_u'],
+                                      # a variable is addressed by key: names of attributes / private slots are legal names
+                                      ['X', '_X'], ['size', 'W'], ['span', 'Y'], ['values', 'X', 'index'], ['strict', 'copy']]))
         vars_ = [[nm, draw(st.lists(values, min_size=n, max_size=n))] for nm in names]
         user_locals = None
         loc_kind = draw(st.sampled_from(['none', 'none', 'new', 'shadow-var', 'shadow-helper']))
